@@ -209,9 +209,11 @@ def build_model(engine):
     with open(main, "w") as f:
         for part in (os.path.join(gen, engine + "_model.ml"), os.path.join(OCAML, "util.ml"), os.path.join(OCAML, engine + "_drv.ml")):
             f.write(open(part).read() + "\n")
-    rc, out = sh(["ocamlfind", "ocamlopt", "-O3", "-w", "-a", "-package", "str", "-linkpkg", main, "-o", exe], cwd=gen, timeout=900)
-    if rc != 0:
-        rc, out = sh(["ocamlfind", "ocamlopt", "-w", "-a", "-package", "str", "-linkpkg", main, "-o", exe], cwd=gen, timeout=900)
+    # build to a temporary name and rename atomically: a concurrently running check keeps executing the old binary
+    tmp = exe + ".tmp%d" % os.getpid()
+    rc, out = sh(["ocamlfind", "ocamlopt", "-w", "-a", "-package", "str", "-linkpkg", main, "-o", tmp], cwd=gen, timeout=900)
+    if rc == 0:
+        os.replace(tmp, exe)
     return rc == 0, out
 
 
@@ -229,8 +231,11 @@ def build_harness(engine):
         open(alt, "w").write(open(os.path.join(HARNESS, "go.mod")).read().replace("=> /repo", "=> " + REPO))
         open(alt[:-4] + ".sum", "w").write(src)
         modflag = ["-modfile=" + alt]
-    rc, out = sh(["go", "build"] + modflag + ["-tags", "verif", "-o", os.path.join("bin", engine + ALT), "./cmd/" + engine],
+    tmp = os.path.join("bin", engine + ALT + ".tmp%d" % os.getpid())
+    rc, out = sh(["go", "build"] + modflag + ["-tags", "verif", "-o", tmp, "./cmd/" + engine],
                  cwd=HARNESS, env=GOENV, timeout=1800)
+    if rc == 0:
+        os.replace(os.path.join(HARNESS, tmp), os.path.join(HARNESS, "bin", engine + ALT))
     return rc == 0, out
 
 
